@@ -189,6 +189,8 @@ def run_case(case, make_monitors, oracle=accessor_oracle, key_pred=None, prefix=
         seqs = patterns()[case["patterns"][0]::case["patterns"][1]]
     else:
         seqs = list(sequences(case["depth"], first=case.get("first")))
+        if case.get("shard"):
+            seqs = seqs[case["shard"][0]::case["shard"][1]]
     for seq in seqs:
         s = Session(cfg, case["base"], make_monitors())
         s.p.abstract = set()
